@@ -380,4 +380,19 @@ def r6(ctx):
     relabel(ctx, "C05.R6", c11.r6)
 
 
-RULES = [("C05.R1", r1), ("C05.R2", r2), ("C05.R3", r3), ("C05.R4", r4), ("C05.R5", r5), ("C05.R6", r6)]
+
+def f1(ctx):
+    """generic same-name parameter forwarding over this property's modules (see shared.generic_forwarding)."""
+    from . import shared as _sh
+    _sh.generic_forwarding(ctx, "C05.F1", _sh.PROPERTY_MODULES["C05"])
+
+
+
+def s1(ctx):
+    """shared mechanism: every entry point builds from specs that own their state — a second call through any entry point starts from the same state (= C18.R1)"""
+    from .shared import relabel
+    from . import c18
+    relabel(ctx, "C05.S1", c18.r1)
+
+
+RULES = [("C05.R1", r1), ("C05.R2", r2), ("C05.R3", r3), ("C05.R4", r4), ("C05.R5", r5), ("C05.R6", r6), ("C05.F1", f1), ("C05.S1", s1)]
